@@ -198,6 +198,20 @@ def bounded(rep, tier, seed):
                         if got != want and not unspecified:
                             fails.append({"runner": runner.__name__, "package": pkg, "bindings": bindings, "reference": ref,
                                           "observed": repr(got), "expected": repr(want)})
+        # a component of the package that is itself bound to a plain value does not stand in the way of a simple name
+        for pkg, extra in (("p.q", {"p": 5}), ("p.q", {"p.q": 5}), ("p", {"p": 5})):
+            for b, ref, want in (({"a": 3}, "a", 3), ({"a": 3}, "a + 1", 4), ({}, "a", "error")):
+                n += 1
+                bindings = dict(extra, **b)
+                try:
+                    env = celpy.Environment(package=pkg, annotations={k: ct.IntType for k in bindings}, runner_class=runner)
+                    got = _plain(env.program(env.compile(ref)).evaluate({k: ct.IntType(v) for k, v in bindings.items()}))
+                except ev.CELEvalError:
+                    got = "error"
+                except Exception as ex:
+                    got = f"escaped {type(ex).__name__}"
+                if got != want:
+                    fails.append({"runner": runner.__name__, "package": pkg, "bindings": bindings, "reference": ref, "observed": repr(got), "expected": repr(want)})
         # macro scoping
         for text, b, want in [("[1, 2].map(x, x + y)", {"x": 10, "y": 100}, [101, 102]), ("[1, 2].map(n, [7, 8].map(n, n))", {}, [[7, 8], [7, 8]]),
                               ("[1, 2].map(x, [7].map(y, x + y))", {}, [[8], [9]]), ("[[1, 2], [3]].map(l, l.map(x, x * 2))", {}, [[2, 4], [6]]),
